@@ -1,13 +1,14 @@
 #!/usr/bin/env python3
 """Imports sub-agent deliverables /tmp/seed-Cxx-out/{a,b}.* into /verif/seeded/Cxx{a,b}/ (patch.diff, demo_test.go, notes.md, meta.json)."""
 import os, re, json, shutil, sys, glob
-for out in sorted(glob.glob('/tmp/seed-C*-out')):
-    pid = re.search(r'seed-(C\d+)-out', out).group(1)
+ROUND = 2 if '--round2' in sys.argv else 1
+for out in sorted(glob.glob('/tmp/seed2-C*-out' if ROUND == 2 else '/tmp/seed-C*-out')):
+    pid = re.search(r'-(C\d+)-out', out).group(1)
     for v in 'ab':
         patch, demo, md = (f'{out}/{v}.patch.diff', f'{out}/{v}_demo_test.go', f'{out}/{v}.md')
         if not (os.path.exists(patch) and os.path.exists(demo)):
             continue
-        d = f'/verif/seeded/{pid}{v}'
+        d = f'/verif/seeded/{pid}{chr(ord(v) + 2) if ROUND == 2 else v}'
         if os.path.exists(f'{d}/meta.json') and '--force' not in sys.argv:
             continue
         os.makedirs(d, exist_ok=True)
@@ -23,6 +24,6 @@ for out in sorted(glob.glob('/tmp/seed-C*-out')):
                 'demo_run': '^(' + '|'.join(tests) + ')$' if tests else '',
                 'needs_to_manifest': '', 'source': 'independent sub-agent given only the property text and a scratch worktree',
                 'what_was_run': 'bin/seedtest /verif/seeded/%s%s (scratch worktree: suite, demonstration with and without the change, then the checks)' % (pid, v),
-                'confirmed': None, 'caught_by': []}
+                'confirmed': None, 'caught_by': [], 'round': ROUND}
         json.dump(meta, open(f'{d}/meta.json', 'w'), indent=1)
         print('imported', d, 'pkg', pkg, 'tests', tests)
